@@ -1,7 +1,7 @@
 """Property registry: Lean obligations and correspondence streams per property."""
 import os
 
-from . import core, gen_enc, gen_dec, gen_fld, gen_val, gen_bld
+from . import core, gen_enc, gen_dec, gen_fld, gen_val, gen_bld, gen_misc, gen_rt
 from .runner import Spec
 
 SPECS = {}
@@ -12,6 +12,11 @@ DEFAULT_NOTE = ("Trusted: Lean 4.33 kernel; axioms propext, Classical.choice, Qu
                 "standard, not present in the sandbox; C++ object lifetime and aliasing are modelled by immutable values.")
 LEVEL_NOTE = {}
 LEVEL_TEXT = {
+    "C02": "Theorem decode_inbounds: a checked-read twin of the whole decoder (CMP walk, reassembly, every TECMP path; reads in the order and under exactly the guards of the C++) NEVER performs an out-of-bounds read and equals the plain model, for every decoder state and every buffer; termination is Lean's termination checker on the message walk (>= 16 bytes per step) and structural recursion of the TECMP entry loop; decode_count (12 * packets <= length), decode_payload_present, reassembled_length_inbounds (16-bit length wrap of > 65535 accumulated bytes stays inside), decode_state_ok (invariant over any history), decode_null / decode_short. PARTIAL clause: 'returned packets own their data after the buffer / decoder is released' is about object lifetime, which immutable model values cannot express; the harness observes it (input in an exact-size heap block freed - ASan-poisoned - before packets are read back; decoder destroyed before the last read). Tied to the code by every truncation / field corruption of well-formed frames, TECMP frames of all 256 message types, random strings and histories under ASan+UBSan.",
+    "C04": "Theorems C04_wire / C04_pad / C04_truncate: for a frame laid out from the protocol table (WFrame/WMsg: independent of the encoder model) with any number of unsegmented messages, any in-range field values, ANY decoder state, decoding returns exactly one packet per message in wire order with device/stream id, version, message type, timestamp, interface or vendor id by message type, flags, payload type and bytes equal to the big-endian wire fields; zero padding changes nothing; a frame cut at ANY offset yields exactly the packets of the messages still completely contained (fitCount); C04_invalid_marked: a typed payload rejected by its validator (inner length misfit, CAN/CAN-FD/Ethernet bus-error flags) is returned type 0 / same length / no wire bytes. Tied to the code by table-built frames with consistent and inconsistent payloads, every truncation, padding, prior history.",
+    "C16": "Refinement: theorem abs_step (one concrete step of the vector-based tracker = one step of the specification map device id -> (latest capture-module packet, interface id -> latest packet)) under the invariant Inv (unique ids), inv_step, and status_refines for EVERY operation sequence from the empty tracker; entries_are_keys (exactly one entry per key), index_spec / if_index_spec (lookups return the position of the matching entry or the count), update_other_kind / update_unknown_device (identities), if_key_is_payload_id. Swap-with-last removal is modelled literally. Tied to the code by exhaustive and random operation histories with a dump and index probes after every operation; the compared view is the sorted map, vector order is checked against the implementation's own dump.",
+    "C19": "PARTIAL by nature. Proved: Conc.interleave_independent / C19_interleaving - for instances whose step functions read and write their own state only (Encoder, Decoder, Status models; the TECMP path is a pure function), EVERY interleaving of the calls yields for each instance exactly the outputs and final state of its solo run; the premise 'no shared mutable state' is the regenerated obligation no_shared_state: `nm` on the objects built from /repo on this run finds no symbol in a writable section beyond the allow-list, checked by `decide`. Not provable in any model: real schedules, the C++ memory model, races inside libstdc++/malloc - observed with a ThreadSanitizer build running the mixed workload on 4/16 threads with per-case output comparison.",
+    "C20": "PARTIAL by nature. Proved: byte-determinacy theorems - frame_bytes_determined (every byte of a frame is header, message header, payload or explicit zero pad), frame_reserved_zero, unused_ids_zero (id bytes a control message leaves unused and the reserved half of the vendor word are zero), builder canonicity (C13), reassembly_bytes_declared (C05), plus the model being a function of inputs and logical state. Not provable in any model: definedness of real memory - observed by re-running the correspondence with fresh heap blocks filled with 0x00/0xFF(/0xA5) and the stack painted before every call (a byte from uninitialised memory cannot equal the model's byte under all patterns) and by valgrind memcheck ('no decision depends on an uninitialised value').",
     "C03": "Theorem accessors_inbounds: for each of the seven typed payload classes, if the (repaired) validator accepts a buffer then the checked-read model of every accessor never reads outside it and every reported view (data pointer+length, strings, stream ids, vendor data, sample block) lies inside it - all buffers, all lengths, incl. the 16-bit wrap of the padded stream-id count; decoded_accessors_inbounds lifts it to every packet the decoder returns as valid (any state, any buffer), msgValid_inbounds to the packet constructor. Tied to the code by `val`/`mkpkt`/`dec access`: validator verdict and (offset,len) of every view computed from real pointers, each view touched byte by byte under ASan.",
     "C13": "Per builder (CAN, CAN-FD, LIN, Ethernet, analog, capture-module, interface) theorems *_setData: lengths, data at the table's offset, header fields preserved, DLC = ISO 11898 code, NUL termination and even zero padding of strings, zero pad byte of odd id lists, validator accepts and Packet::create keeps the type (hypothesis for CAN/Ethernet/analog/interface: no error flag / in-range enum set earlier - the excluded case is exercised on the real code), accessors return exactly the data; *_canonical: the bytes depend only on the preserved header fields and the last call's data. dlc_ok ties the real encodeDlc (all 256 inputs, regenerated every run) to the model's table. Tied to the code by the `bld` correspondence and a protocol-table predicate on the implementation's raw bytes.",
     "C14": "Model: copy/move/assignment as functions on values, both operator== as Bool functions. Theorems: copy_obs/assign_obs/self_assign/move_obs/move_assign_obs (target = source's former value whatever it held), packetEq_refl, packetEq_symm, packetNe_not, packetEq_fieldwise (equality = equality of all fields for payloads of 1..65535 bytes), payloadEq_iff. PARTIAL: 'a copy shares no state with its original' is about aliasing, which immutable model values cannot exhibit; the harness observes it (mutate and destroy the copy, re-read the original) on every generated script.",
@@ -69,10 +74,12 @@ reg(Spec("C10", "Encoder output does not depend on earlier encode calls", ["Asam
          rule="history of 1..6 earlier encode calls, then the same batch on the used and on a fresh encoder"))
 
 
-reg(Spec("C02", "Decoding arbitrary bytes is memory-safe and terminates", [], [], [], gen_dec.gen_c02, view=gen_dec.structure_view,
+reg(Spec("C02", "Decoding arbitrary bytes is memory-safe and terminates", ["AsamCmp.Props.C02"],
+         ["AsamCmp.C02.decode_inbounds", "AsamCmp.C02.reassembled_length_inbounds", "AsamCmp.C02.walk_count", "AsamCmp.C02.decode_count", "AsamCmp.C02.decode_payload_present", "AsamCmp.C02.decode_state_ok", "AsamCmp.C02.decode_null", "AsamCmp.C02.decode_short"], ["AsamCmp.Props.C02"], gen_dec.gen_c02, view=gen_dec.structure_view,
          predicate=gen_dec.pred_c02,
          rule="well-formed frames of every kind truncated at every offset and with every length/type/flag field corrupted, TECMP frames of all message types, random byte strings, histories; inputs live in exact-size heap blocks freed before the packets are read back, the decoder is destroyed before the last read; view = packet count, payload length and validity, sanitizer verdict"))
-reg(Spec("C04", "Decoded packets report exactly what is on the wire", [], [], [], gen_dec.gen_c04,
+reg(Spec("C04", "Decoded packets report exactly what is on the wire", ["AsamCmp.Props.C04"],
+         ["AsamCmp.C04.C04_wire", "AsamCmp.C04.C04_pad", "AsamCmp.C04.C04_truncate", "AsamCmp.C04.C04_invalid_marked"], ["AsamCmp.Props.C04"], gen_dec.gen_c04,
          rule="frames built from the protocol table: 0..8 messages of all kinds, consistent and inconsistent inner lengths, error flags, every truncation, zero padding, prior history"))
 reg(Spec("C05", "Segmented messages reassemble under any interleaving", ["AsamCmp.Props.C05"],
          ["AsamCmp.expected_payload", "AsamCmp.reassemble_single", "AsamCmp.reassemble_many", "AsamCmp.C05_interleaved", "AsamCmp.run_filter"], ["AsamCmp.Props.C05"], gen_dec.gen_c05, predicate=gen_dec.pred_c05,
@@ -111,6 +118,29 @@ reg(Spec("C13", "Payload builders store data faithfully and produce self-valid p
          rule="every data length 0..255 (CAN/CAN-FD/LIN), {0,1,2,63,64,65,1499,65529}+random (Ethernet/analog), strings 0..40/255/256/1000, id lists of every parity, on default objects and on objects that held longer/shorter/different data (chains of 2..4 setData calls); predicate: raw bytes equal the protocol-table layout of the last call's data with the earlier header fields preserved, validator and decoder accept"))
 
 
+C14_THMS = ["AsamCmp.C14.copy_obs", "AsamCmp.C14.assign_obs", "AsamCmp.C14.self_assign", "AsamCmp.C14.move_obs", "AsamCmp.C14.move_assign_obs",
+            "AsamCmp.C14.payloadEq_refl", "AsamCmp.C14.payloadEq_symm", "AsamCmp.C14.payloadEq_iff", "AsamCmp.C14.packetEq_refl",
+            "AsamCmp.C14.packetEq_symm", "AsamCmp.C14.packetNe_not", "AsamCmp.C14.packetEq_fieldwise", "AsamCmp.C14.copy_eq", "AsamCmp.C14.assign_eq"]
+reg(Spec("C14", "Packets and payloads behave as values", ["AsamCmp.Props.C14"], C14_THMS, ["AsamCmp.Props.C14"], gen_misc.gen_c14, predicate=gen_misc.pred_c14,
+         rule="store of 3 packets, exhaustive sequences of copy/move/assign/move-assign over sources {no payload, zero-length payload of two types, CAN, status, two 1-byte generic}; x==x and assignment onto equal-looking targets for every corner case; aliasing scripts (mutate every field of the copy, replace its payload, destroy it, re-read the original); payload objects; all getters and ==/!= on all pairs after every step",
+         partial="'a copy shares no state with its original' is observed by the harness (mutation / destruction of the copy), not proved: model values cannot alias"))
+reg(Spec("C16", "Status tracker equals a per-device, per-interface latest-message map", ["AsamCmp.Props.C16"],
+         ["AsamCmp.C16.inv_init", "AsamCmp.C16.inv_step", "AsamCmp.C16.abs_step", "AsamCmp.C16.status_refines", "AsamCmp.C16.entries_are_keys",
+          "AsamCmp.C16.index_spec", "AsamCmp.C16.if_index_spec", "AsamCmp.C16.update_other_kind", "AsamCmp.C16.update_unknown_device",
+          "AsamCmp.C16.if_key_is_payload_id"], ["AsamCmp.Props.C16"], gen_misc.gen_c16, predicate=gen_misc.pred_c16,
+         view=gen_misc.c16_view,
+         rule="exhaustive operation sequences up to length 3 (quick) / 4 over 3 devices x 2 interfaces x {cm, if, data} updates + removals + clear, sampled length-4/5, random 200-op histories; dump and index lookups after every operation; compared view = sorted map, vector order / indices checked against the implementation's own dump"))
+reg(Spec("C19", "Separate codec instances can be used concurrently", ["AsamCmp.Props.C19"],
+         ["AsamCmp.Conc.interleave_independent", "AsamCmp.Conc.schedules_equivalent", "AsamCmp.C19.C19_interleaving", "AsamCmp.C19.tecmp_stateless",
+          "AsamCmp.C19.no_shared_state"], ["AsamCmp.Props.C19"], gen_rt.gen_c19, extra=gen_rt.extra_c19,
+         rule="mixed workload from the encoder, decoder, TECMP, status and builder generators; single-threaded ASan run compared with the model, then the same cases distributed over 4 (quick) / 4 and 16 (thorough) threads, each with its own objects, in a ThreadSanitizer build: per-case outputs must equal the model's and TSan must stay silent",
+         partial="real thread schedules, the C++ memory model and races inside libstdc++/malloc are outside the model; observed with TSan on the schedules that happen to occur"))
+reg(Spec("C20", "Outputs never contain or depend on uninitialised memory", ["AsamCmp.Props.C20"],
+         ["AsamCmp.C20.frame_bytes_determined", "AsamCmp.C20.frame_reserved_zero", "AsamCmp.C20.unused_ids_zero", "AsamCmp.C20.builder_canonical",
+          "AsamCmp.C20.reassembly_bytes_declared", "AsamCmp.frame_length", "AsamCmp.C13.if_setData_canonical", "AsamCmp.C13.cm_setData_canonical"],
+         ["AsamCmp.Props.C20"], gen_rt.gen_c20, extra=gen_rt.extra_c20,
+         rule="mixed workload (all payload kinds, padded and unpadded frames, control/status/vendor headers, reassembly, TECMP conversion, builders) compared with the model under ASan's default fill, then re-run with fresh heap blocks filled with 0x00 / 0xFF (/0xA5 thorough) and the stack below the caller painted before every operation; valgrind memcheck on a subset of the plain build",
+         partial="definedness of real memory (no decision depends on an uninitialised value) cannot be exhibited by a model; observed with fill patterns and valgrind on the generated workloads"))
 NOT_CLAIMED.update({})
 
 
